@@ -94,7 +94,7 @@ type ContractSet struct {
 	Files  []string
 }
 
-var tagRe = regexp.MustCompile(`\s*\[((?:C\d+\s*)+)\]\s*$`)
+var tagRe = regexp.MustCompile(`\s*\[((?:C\d+(?::\w+)?\s*)+)\]\s*$`)
 
 func splitTags(s string) (string, []string) {
 	m := tagRe.FindStringSubmatchIndex(s)
@@ -166,6 +166,9 @@ func (cs *ContractSet) parseFile(path string) error {
 		case "func", "extern", "iface":
 			rest, tags := splitTags(rest)
 			name := rest
+			if strings.ContainsAny(name, " \t") {
+				return fail(fmt.Errorf("malformed contract header (unparsed tag list?)"))
+			}
 			if ex, dup := cs.Funcs[name]; dup {
 				// several blocks for one function (e.g. one per property file) are merged
 				if ex.Kind != kw {
